@@ -13,9 +13,10 @@ CONFIG = dict(
         dict(name="c12_lifecycle_step", tier="quick"),
         dict(name="c12_submit_rejected_after_stop_begins", tier="quick"),
         dict(name="c12_clean_settles_every_waiter", tier="quick"),
+        dict(name="c12_stop_settles_every_waiter", tier="quick", bounded="<= 2 scheduling rounds (the time limit is reached by the second)"),
     ],
     functions=["CoroutinePool::change_state", "CoroutinePool::stopping", "CoroutinePool::stopped", "CoroutinePool::submit_task (state guard)",
-               "CoroutinePool::do_clean", "CoroutinePool::notify", "CoroutinePool::new (constructor, executed for real)"],
+               "CoroutinePool::stop", "CoroutinePool::do_stop", "CoroutinePool::do_clean", "CoroutinePool::notify", "CoroutinePool::new (constructor, executed for real)"],
     assumptions=[
         "PARTIAL: `every task accepted earlier runs before stop reports success` and the stop/submit races are schedule properties of do_stop / EventLoop::start (threads, condvars) and are not decided here",
         "dashmap shim: sequential map contract plus the real crate's locking precondition (a write while a reference into the map is alive is a deadlock)",
